@@ -248,9 +248,71 @@ fn unoptimised_stage(ctx: &Ctx, prop: &str, rep: &mut Report) {
     rep.extra.push(("stage_unoptimised_build".into(), json!({"what": "same monitors, a sixth of the pooled quick workload plus the un-pooled families, fast_qr compiled at opt-level 0 with overflow checks and debug assertions", "evaluations": evals, "violations": violations, "wall_s": (t0.elapsed().as_secs_f64() * 10.0).round() / 10.0})));
 }
 
+/// Plain-features stage (only when ./check built that harness: the symbol-level checks): fast_qr compiled with NO cargo
+/// feature at all (neither svg nor image nor the hooks), optimised, no assertions - the library a downstream crate gets
+/// by default. The renderer monitors are not compiled into this binary; everything else runs the full quick workload
+/// under another seed. Code that only exists when svg/image are off is observed here and nowhere else.
+fn plain_features_stage(ctx: &Ctx, prop: &str, rep: &mut Report) {
+    let bin = match std::env::var_os("VCHECK_PLAIN_BIN").map(PathBuf::from) {
+        Some(b) if b.is_file() => b,
+        Some(b) => {
+            rep.stats.inconclusive(format!("plain-features stage: {} not found (run through ./check, which builds it)", b.display()));
+            return;
+        }
+        None => return,
+    };
+    let t0 = Instant::now();
+    let evdir = std::env::var_os("VCHECK_TARGET_DIR").map(PathBuf::from).unwrap_or_else(|| ctx.root.join("harness/target")).join("scratch").join(format!("plainstage-{}-{}", prop, std::process::id()));
+    let _ = std::fs::create_dir_all(&evdir);
+    let out = Command::new(&bin)
+        .args(["run", prop, "--tier", "quick"])
+        .env("VCHECK_STAGE_CHILD", "release")
+        .env("VCHECK_STAGE_FLAVOUR", "plain")
+        .env("VERIF_SEED", format!("{}", (ctx.seed ^ 0x91a1) as i128))
+        .env("VERIF_EVIDENCE_DIR", &evdir)
+        .stdin(Stdio::null())
+        .output();
+    let out = match out {
+        Ok(o) => o,
+        Err(e) => {
+            rep.stats.inconclusive(format!("plain-features stage: cannot start child: {e}"));
+            return;
+        }
+    };
+    let stdout = String::from_utf8_lossy(&out.stdout).to_string();
+    let mut violations = 0u64;
+    for line in stdout.lines() {
+        if let Some(rest) = line.strip_prefix("VIOLATION ") {
+            let field = |k: &str| rest.split_whitespace().find_map(|w| w.strip_prefix(&format!("{k}="))).unwrap_or("").to_string();
+            let detail = rest.splitn(4, ' ').nth(3).unwrap_or("").to_string();
+            let replay = field("replay");
+            let job = std::fs::read_to_string(&replay).ok().and_then(|t| serde_json::from_str::<Value>(&t).ok()).map(|v| v["job"].clone()).unwrap_or(json!({"fam": "plain-features-stage"}));
+            rep.stats.violations.push(crate::stats::Violation {
+                property: prop.to_string(),
+                kind: format!("plain-features:{}", field("kind")),
+                detail: format!("{detail} (observed with fast_qr compiled with no cargo feature - neither svg nor image -, optimised, without assertions)"),
+                job: json!({"profile": "release-plain", "inner": job, "child_replay": replay}),
+            });
+            rep.stats.count("violations_total", 1);
+            violations += 1;
+        } else if line.starts_with("INCONCLUSIVE") {
+            rep.stats.inconclusive(format!("plain-features stage: {line}"));
+        }
+    }
+    let ev: Option<Value> = std::fs::read_to_string(evdir.join(format!("{prop}.json"))).ok().and_then(|t| serde_json::from_str(&t).ok());
+    let _ = std::fs::remove_dir_all(&evdir);
+    let evals = ev.as_ref().and_then(|e| e["coverage"]["evaluations"].as_u64()).unwrap_or(0);
+    if ev.is_none() && violations == 0 {
+        rep.stats.inconclusive(format!("plain-features stage: child ended with {:?} and no evidence", out.status.code()));
+    }
+    rep.stats.count("plain_features_executions", evals);
+    rep.extra.push(("stage_plain_features".into(), json!({"what": "same monitors (renderer monitors excluded), full quick workload under another seed, fast_qr compiled with no cargo feature at all (plain library: no svg, no image, no hooks), opt-level 3, no overflow checks, no debug assertions", "evaluations": evals, "violations": violations, "wall_s": (t0.elapsed().as_secs_f64() * 10.0).round() / 10.0})));
+}
+
 pub fn run(ctx: &Ctx, prop: &str, rep: &mut Report) {
     if !is_child() && !std::env::var("VERIF_NO_RELEASE_STAGE").map(|v| v == "1").unwrap_or(false) {
         unoptimised_stage(ctx, prop, rep);
+        plain_features_stage(ctx, prop, rep);
     }
     if !is_child() && !std::env::var("VERIF_NO_RELEASE_STAGE").map(|v| v == "1").unwrap_or(false) {
         environment_stage(ctx, prop, rep);
